@@ -3,7 +3,7 @@ EXTENDS Coalesce, Json
 MCCfgSet == {[x |-> 0]}
 MCOuts == {"ok", "e1", "panic"}
 MCKeys == {1, 2}
-Inv == OneInnerPerKey /\ WaitersFollowLiveOrResolved
+Inv == OneInnerPerKey /\ WaitersFollowLiveOrResolved /\ KeyTakenOnlyByLiveLeader
 \* transition tour: every transition of the (small) model, printed with the level of its source state
 TourDump == PrintT(<<"EDGE", TLCGet("level"), ToJson([f |-> view, t |-> view', cfg |-> cfg, ev |-> ev'])>>)
 GenPrint == PrintT(<<"GEN", TLCGet("level"), ToJson([cfg |-> cfg, ev |-> ev])>>)
